@@ -72,8 +72,62 @@ BDist(x, y) ==
 BClose(x, y, p) == BDist(x, y) <= Pow10(9 - p)
 
 -----------------------------------------------------------------------------
+(* Twelve-digit numbers for the relations that hold far more precisely than  *)
+(* nine digits (eps0 mu0 c^2 = 1 to parts in 10^10):                         *)
+(*   [l |-> <<l3, l2, l1, l0>>, e |-> exponent], base-1000 limbs, l3 in      *)
+(*   100..999, value = (l3 l2 l1 l0) * 10^(e - 11).  Products are truncated  *)
+(*   to twelve digits (error below 10^-11 relative per product).             *)
+HMul(x, y) ==
+  LET a0 == x.l[4]  a1 == x.l[3]  a2 == x.l[2]  a3 == x.l[1]
+      b0 == y.l[4]  b1 == y.l[3]  b2 == y.l[2]  b3 == y.l[1]
+      c0 == a0 * b0
+      c1 == a0 * b1 + a1 * b0
+      c2 == a0 * b2 + a1 * b1 + a2 * b0
+      c3 == a0 * b3 + a1 * b2 + a2 * b1 + a3 * b0
+      c4 == a1 * b3 + a2 * b2 + a3 * b1
+      c5 == a2 * b3 + a3 * b2
+      c6 == a3 * b3
+      t1 == c1 + (c0 \div 1000)
+      t2 == c2 + (t1 \div 1000)
+      t3 == c3 + (t2 \div 1000)   d3 == t3 % 1000
+      t4 == c4 + (t3 \div 1000)   d4 == t4 % 1000
+      t5 == c5 + (t4 \div 1000)   d5 == t5 % 1000
+      t6 == c6 + (t5 \div 1000)   d6 == t6 % 1000
+      d7 == t6 \div 1000                                    \* 10 <= d7 <= 998
+      long == d7 >= 100
+  IN  [l |-> IF long THEN <<d7, d6, d5, d4>>
+             ELSE <<d7 * 10 + (d6 \div 100), (d6 % 100) * 10 + (d5 \div 100),
+                    (d5 % 100) * 10 + (d4 \div 100), (d4 % 100) * 10 + (d3 \div 100)>>,
+       e |-> x.e + y.e + (IF long THEN 1 ELSE 0)]
+
+IsHBig(x) == x.l[1] \in 100..999 /\ \A i \in 2..4 : x.l[i] \in 0..999
+HHi(x) == x.l[1] * 1000 + x.l[2]
+HLo(x) == x.l[3] * 1000 + x.l[4]
+HOne == [l |-> <<100, 0, 0, 0>>, e |-> 0]
+HTwo == [l |-> <<200, 0, 0, 0>>, e |-> 0]
+HPi  == [l |-> <<314, 159, 265, 359>>, e |-> 0]
+
+\* distance in units of the 12th digit (of the smaller number); Far = far apart
+HDist(x, y) ==
+  IF x.e = y.e
+  THEN IF AbsD(HHi(x), HHi(y)) > 1000 THEN Far ELSE AbsD((HHi(x) - HHi(y)) * 1000000 + HLo(x), HLo(y))
+  ELSE IF x.e = y.e + 1 /\ HHi(x) - 100000 <= 9 /\ 999999 - HHi(y) <= 100
+       THEN ((HHi(x) - 100000) * 1000000 + HLo(x)) * 10 + (999999 - HHi(y)) * 1000000 + (1000000 - HLo(y))
+  ELSE IF y.e = x.e + 1 /\ HHi(y) - 100000 <= 9 /\ 999999 - HHi(x) <= 100
+       THEN ((HHi(y) - 100000) * 1000000 + HLo(y)) * 10 + (999999 - HHi(x)) * 1000000 + (1000000 - HLo(x))
+  ELSE Far
+
+\* equal within q * 10^-10 relative: q * (leading two digits + 1) units of the 12th digit
+HClose(x, y, q) == HDist(x, y) <= q * ((x.l[1] \div 10) + 1)
+
+-----------------------------------------------------------------------------
 (* Sanity of the arithmetic itself, checked by TLC (Constants.cfg): on       *)
 (* three-digit operands the product is exact and equals integer arithmetic.  *)
 Small3(p) == [m |-> p * 1000000, e |-> 0]                      \* p in 100..999: the number p / 100
+HMulSane == /\ HMul(HTwo, HTwo) = [l |-> <<400, 0, 0, 0>>, e |-> 0]
+            /\ HMul(HPi, HOne) = HPi
+            /\ HMul(HPi, HPi) = [l |-> <<986, 960, 440, 109>>, e |-> 0]         \* pi^2 = 9.86960440108936 (truncated operand)
+            /\ HMul([l |-> <<299, 792, 458, 0>>, e |-> 8], [l |-> <<299, 792, 458, 0>>, e |-> 8])
+                 = [l |-> <<898, 755, 178, 736>>, e |-> 16]                       \* c^2 = 8.98755178736818e16
 MulExactOn3Digits == \A p, q \in 100..999 : BMul(Small3(p), Small3(q)) = BNormI(p * q, 4)
 =============================================================================
